@@ -120,3 +120,33 @@ package streamflow
 //@   allocates FlowGraphNode, ConnectionEdge
 //@   ensures[connected] result == nil ==> in(conn.GetFrom().GetProcessor().GetReferenceName(), flowDir.nodes) && exists(k, 0, len(flowDir.nodes[conn.GetFrom().GetProcessor().GetReferenceName()].edges), flowDir.nodes[conn.GetFrom().GetProcessor().GetReferenceName()].edges[k].condition == conn.GetFrom().GetProcessor().GetCondition())
 //@   ensures[keys] forall(k, string, in(k, flowDir.nodes) ==> flowDir.nodes[k] != nil && allocated(flowDir.nodes[k]) && flowDir.nodes[k].processorKey == k)
+
+// ---- C05: what validation establishes for a direction the loader accepts
+// `ranked`/`rank` are prophecy fields: ranked(n) <=> no cycle of processor connections is reachable from n, rank(n) =
+// the length of the longest connection path from n (they exist for every graph). The validator's cycle check is the
+// link between the code and them; it is outside the verifier's reach (a map is cloned per edge in a recursive DFS) and
+// is covered by a BOUNDED stand-in (replays-src/c05_bounded_cycles_test.go: all digraphs on <= 3 nodes with two
+// conditions and on 4 nodes with one, real functions executed), labelled bounded in the evidence and never counted as
+// proved: detectCircularConnections(d) == nil <=> there is no cycle among the nodes of d.
+//@ extern detectCircularConnections
+//@   modifies nothing
+//@   ensures[bounded-stand-in] result == nil ==> forall(k, string, in(k, flowDir.nodes) ==> flowDir.nodes[k].ranked)
+//@ extern validateEdges
+//@   modifies nothing
+//@ extern validateUnconnectedProcessors
+//@   modifies nothing
+
+//@ func validateDirection
+//@   prop C05
+//@   requires flow != nil
+//@   modifies nothing
+//@   ensures[request-needs-entry-point] result == nil && len(flow.nodes) > 0 && flow.flowType == publictypes.StreamTypeRequest ==> flow.root != nil && flow.root.node != nil
+//@   ensures[every-node-checked-for-cycles] result == nil && len(flow.nodes) > 0 ==> forall(k, string, in(k, flow.nodes) ==> flow.nodes[k].ranked)
+
+//@ func validateFlow
+//@   prop C05
+//@   requires flowGraph != nil && flowGraph.request != nil && flowGraph.response != nil && flowGraph.request.flowType == publictypes.StreamTypeRequest
+//@   modifies nothing
+//@   ensures[both-directions-validated] result == nil ==> (len(flowGraph.request.nodes) > 0 ==> forall(k, string, in(k, flowGraph.request.nodes) ==> flowGraph.request.nodes[k].ranked)) && (len(flowGraph.response.nodes) > 0 ==> forall(k, string, in(k, flowGraph.response.nodes) ==> flowGraph.response.nodes[k].ranked))
+//@   ensures[some-direction-defined] result == nil ==> len(flowGraph.request.nodes) > 0 || len(flowGraph.response.nodes) > 0
+//@   ensures[request-needs-entry-point] result == nil && len(flowGraph.request.nodes) > 0 ==> flowGraph.request.root != nil && flowGraph.request.root.node != nil
